@@ -753,6 +753,7 @@ fn case<T: BT>(scen: &str, run: Run) -> Case {
 
 include!("../c05/types.in");
 include!("../c05/sites.rs");
+include!("../c05/declared.rs");
 
 /// Class representatives of the read-site / private-copy scenarios: one type per
 /// boundary type family (the seven scalar kinds, by-reference plain data, clone
@@ -763,6 +764,8 @@ fn rep_cases(cases: &mut Vec<Case>) {
     fn rep<T: BT>(scen: &str, run: Run) -> Case {
         Case { name: format!("rep:{scen} {}", T::desc().roto()), run }
     }
+    // script-declared types in exported signatures (refused, or crossing unchanged)
+    declared_cases(cases);
     macro_rules! any_type { ($($t:ty);* $(;)?) => { $(
         cases.push(rep::<$t>("sites-const", sc_sites_const::<$t>));
         cases.push(rep::<$t>("sites-arg", sc_sites_arg::<$t>));
